@@ -89,7 +89,7 @@ def run(prop: str, tier: str) -> int:
         alpha = b"aAbBzZ09 -_.$\xe9\xc9\n"
         for i in range(300 if tier == "quick" else 5000):
             kws = sorted({bytes(rng.choice(alpha) for _ in range(rng.randint(1, 4))) for _ in range(rng.randint(1, 6))} - {b"\n", b""})
-            kws = [k for k in kws if b"\n" not in k]
+            kws = [k for k in kws if b"\n" not in k and k.strip(b" \t")]      # (a line of blanks only is a legitimate keyword too, but keep the lists readable)
             if not kws:
                 continue
             sub = os.path.join(work, f"r{i}")
@@ -102,7 +102,7 @@ def run(prop: str, tier: str) -> int:
             base = bytes(rng.choice(alpha) for _ in range(rng.randint(0, 12)))
             k = rng.choice(kws)
             data = base + rng.choice([k, k.upper(), k.lower(), k.swapcase()]) + rng.choice([b"", b" ", b"x", k])
-            rec = call(s[0], data)
+            rec = call(s[0], data, kws_override=kws)       # the keywords as listed in the file, not as the searcher holds them
             rec["origin"] = "random"
             f.write(json.dumps(rec) + "\n")
             n += 1
